@@ -345,6 +345,13 @@ def _run_variant(args):
                 return (vid, "FALSE-ALARM", f"{unl[0].rule} {unl[0].where} {unl[0].key}: {unl[0].msg[:80]}")
             und = [o for o in obs if o.status in ("unanalysed", "error")]
             if und:
+                # a refactoring may be recorded as a known limit of one rule (meta.json: expected_undecided): it must then stay
+                # undecided (exit 2, ANALYSIS-INCOMPLETE) for exactly those rules – never a violation
+                import json as _json
+                mp = pathlib.Path(payload).with_name("meta.json")
+                allowed = set(_json.loads(mp.read_text()).get("expected_undecided", [])) if mp.exists() else set()
+                if allowed and {o.rule for o in und} <= allowed:
+                    return (vid, "neutral-undecided", f"documented limit: {sorted({o.rule for o in und})} cannot read this organisation of the code (exit 2, no violation)")
                 return (vid, "FALSE-ALARM", f"undecided on a behaviour-preserving refactoring (exit 2): {und[0].rule} {und[0].where} {und[0].key}")
             return (vid, "neutral-ok", "no violation and no undecided obligation on the refactored tree")
         if kind == "break":
